@@ -136,4 +136,11 @@ var propSpecs = []PropSpec{
 		NotDecided:  "the matrix row/include merge (value-level), merged dispatch+call inputs in UpdateInputs, automatic secrets list, positions of the diagnostics",
 		Assumptions: commonAssumptions,
 	},
+	{
+		ID:          "C04",
+		Rules:       []string{"C04.GRAMMAR", "C04.LL1", "C04.TREE", "C04.ONE", "C04.LEX"},
+		Explanation: "The grammar implemented by the recursive descent parser is extracted from the SSA form: each parse function becomes an automaton whose letters are token kinds consumed by next() (restricted by the look-ahead tests that dominate the consumption on that path) and calls of other parse functions with their look-ahead context; paths through an error report or a failed callee accept nothing. (GRAMMAR) every extracted production is language-equal (subset construction, product search) to the documented production restricted to the calling context, and Parse is exactly parseLogicalOr followed by the end marker - equal productions imply the same language for inputs of every length; (LL1) wherever a function returns under a look-ahead restriction, no token of the FOLLOW set of its nonterminal is excluded, so the greedy parser accepts exactly the context-free language; (TREE) operands of each operator level come from the next-tighter level, binary nodes get the kind constant of their own operator (token kind X builds comparison kind X) and Left/Right in source order, keywords build their literal nodes; (ONE) parser and lexer record only the first error, nobody else writes the error fields, and the rule reports a syntax error exactly once without checking semantics.",
+		NotDecided:  "value-level restrictions (integer range, float syntax accepted by strconv); the position of the syntax diagnostic (C07)",
+		Assumptions: commonAssumptions,
+	},
 }
